@@ -1040,6 +1040,10 @@ def gen_field_cases(rng, exes, quick, cases):
                             dq = rng.choice([0, 1, 2, 3, 5])
                             setpos(2, ",".join(str(rng.range(0, p - 1)) for _ in range(dq)) + ("," if dq else "") + str(rng.range(1, p - 1)))
                             setpos(1, ",".join(str(rng.range(0, p - 1)) for _ in range(2 * dq)) + ("," if dq else "") + str(rng.range(1, p - 1)))
+                    if op in ("div", "mod", "divmod", "divin", "modin", "divmodin", "pdivmod", "pmod") and rep % 2 == 1:
+                        # constant divisor: the quotient loop divides by B[0] coefficient by coefficient
+                        dpos = {"div": 2, "mod": 2, "divmod": 3, "divin": 1, "modin": 1, "divmodin": 2, "pdivmod": 3, "pmod": 2}[op]
+                        setpos(dpos, str(rng.range(1, p - 1)))
                     if tag == "c0nz":
                         v = vals[1].split(",") if vals[1] != "z" else ["1"]
                         v[0] = str(rng.range(1, p - 1))
